@@ -6,11 +6,12 @@
 # VIOLATION was raised. Nothing in /repo, /verif/evidence or /verif/replays is
 # touched. usage: scripts/mutants.sh [id...]
 set -u
-cd /verif
+HERE=$(cd "$(dirname "$(readlink -f "$0")")/.." && pwd)
+cd "$HERE"
 ids=${*:-$(ls seeded)}
-mkdir -p /verif/.build/mutants
+mkdir -p "$HERE/.build/mutants"
 for id in $ids; do
-  d=/verif/seeded/$id; [ -f $d/patch.diff ] || continue
+  d=$HERE/seeded/$id; [ -f $d/patch.diff ] || continue
   wt=/tmp/mut-$id; out=/tmp/mut-$id.out
   git -C /repo worktree remove --force $wt >/dev/null 2>&1; rm -rf $wt $out
   git -C /repo worktree add -q --detach $wt HEAD || { echo "$id worktree failed"; continue; }
@@ -21,8 +22,8 @@ for id in $ids; do
   fi
   res=""
   for P in $(python3 -c "import json;print(' '.join(json.load(open('$d/meta.json'))['checks']))"); do
-    VERIF_REPO=$wt VERIF_SCRATCH=$out /verif/check $P quick > /verif/.build/mutants/$id.$P.log 2>&1; rc=$?
-    case $rc in 1) res="$res $P=CAUGHT($(grep -c '^VIOLATION' /verif/.build/mutants/$id.$P.log))";; 0) res="$res $P=missed";; *) res="$res $P=harness-rc$rc";; esac
+    VERIF_REPO=$wt VERIF_SCRATCH=$out "$HERE/check" $P quick > "$HERE/.build/mutants/$id.$P.log" 2>&1; rc=$?
+    case $rc in 1) res="$res $P=CAUGHT($(grep -c '^VIOLATION' "$HERE/.build/mutants/$id.$P.log"))";; 0) res="$res $P=missed";; *) res="$res $P=harness-rc$rc";; esac
   done
   echo "$id [$suite]$res"
   git -C /repo worktree remove --force $wt; rm -rf $out
